@@ -442,6 +442,76 @@ loop:
 	return
 }
 
+// Flood a byte-limited state past its PendingMessageByteLimit with unsolicited
+// messages while the local side is idle (each message is below the limit,
+// together they exceed it, so readLoop sits in its back-pressure wait), then
+// end the connection - WITHOUT stopping any mini-protocol client first.
+func scenarioFlood(kind, mode string) (r scenResult) {
+	base := idSet(ourGoroutines())
+	p := peer.New(true)
+	errChan := make(chan error, 10)
+	conn, err := ouroboros.NewConnection(ouroboros.WithConnection(p.Client), ouroboros.WithNetworkMagic(peer.Magic),
+		ouroboros.WithErrorChan(errChan), ouroboros.WithNodeToNode(true), ouroboros.WithKeepAlive(false))
+	if err != nil {
+		p.Close()
+		r.SetupError = err.Error()
+		return
+	}
+	big := make([]byte, 40000)
+	pt := pcommon.NewPoint(7, hash32())
+	tip := pcommon.Tip{Point: pt, BlockNumber: 3}
+	switch kind {
+	case "blockfetch": // Idle limit 65535
+		for i := 0; i < 2; i++ {
+			p.SendMsgs(blockfetch.ProtocolId, false, blockfetch.NewMsgBlock(big))
+		}
+	case "chainsync": // NtN limit 462000
+		for i := 0; i < 13; i++ {
+			m, err := chainsync.NewMsgRollForwardNtN(1, 0, append(append([]byte{0x82, 0x59, 0x9c, 0x40}, big...), 0x00), tip)
+			if err != nil {
+				r.SetupError = err.Error()
+				break
+			}
+			p.SendMsgs(chainsync.ProtocolIdNtN, false, m)
+		}
+	}
+	time.Sleep(200 * time.Millisecond)
+	r.Returned = true
+	if mode == "peer-disconnects" {
+		p.Close()
+		// the connection ends by itself: ErrorChan gets closed
+	} else {
+		r.CloseRet = peer.WaitOrHang(5*time.Second, func() { conn.Close() })
+	}
+	dl := time.After(5 * time.Second)
+loop:
+	for {
+		select {
+		case _, ok := <-errChan:
+			if !ok {
+				r.ErrClosed = true
+				break loop
+			}
+		case <-dl:
+			break loop
+		}
+	}
+	r.CloseRet = peer.WaitOrHang(5*time.Second, func() { conn.Close() })
+	p.Close()
+	for w := 10 * time.Millisecond; w < 3*time.Second; w *= 2 {
+		gs := newGoroutines(base)
+		r.Leaked = nil
+		if len(gs) == 0 {
+			break
+		}
+		for _, g := range gs {
+			r.Leaked = append(r.Leaked, topFrames(g))
+		}
+		time.Sleep(w)
+	}
+	return
+}
+
 // tx-submission server: Init, blocking RequestTxIds answered by Done, the
 // server restarts the protocol; repeated on one connection.  Run in a child
 // process: a panic in a library goroutine kills the process.
@@ -576,6 +646,11 @@ func run(c *vh.Ctx) error {
 			}
 		}
 		todo = append(todo, sc{"localmessagenotification-server.RequestMessages(blocking)", "disconnect-after-request"})
+		for _, k := range []string{"blockfetch", "chainsync"} {
+			for _, m := range []string{"peer-disconnects", "local-close"} {
+				todo = append(todo, sc{"flood-over-byte-limit." + k, m})
+			}
+		}
 		todo = append(todo, sc{"txsubmission-server.Done-restart", "repeat"})
 	}
 	byName := map[string]apiCall{}
@@ -592,6 +667,38 @@ func run(c *vh.Ctx) error {
 			c.Res.Count(canon, true, "txsubmission-restart")
 			if !ok {
 				c.Res.Violate("monitor", "c15:crash:txsubmission-server:Done-restart", "the process died while a raw client repeated Init / RequestTxIds(blocking) -> Done (protocol restart): "+out, t)
+			}
+			continue
+		case strings.HasPrefix(t.Call, "flood-over-byte-limit."):
+			kind := strings.TrimPrefix(t.Call, "flood-over-byte-limit.")
+			r := scenarioFlood(kind, t.Script)
+			c.Res.Count(canon, true, "flood")
+			if r.SetupError != "" {
+				c.Res.Notes = append(c.Res.Notes, canon+": setup failed: "+r.SetupError)
+				continue
+			}
+			fn := ""
+			for _, l := range r.Leaked {
+				switch {
+				case strings.Contains(l, "(*Protocol).readLoop"):
+					fn = "(*Protocol).readLoop"
+				case fn == "" && strings.Contains(l, "(*Protocol).recvLoop"):
+					fn = "(*Protocol).recvLoop"
+				case fn == "":
+					fn = "?"
+				}
+			}
+			addCase("protocol/"+kind+"/client.go", fn, len(r.Leaked) > 0, t)
+			c.Res.TracesValidated++
+			if !r.CloseRet {
+				c.Res.Violate("monitor", "c15:close-hangs:"+canon, "Connection.Close did not return within 5 s", t)
+			}
+			if !r.ErrClosed {
+				c.Res.Violate("monitor", "c15:errorchan-not-closed:"+canon, "ErrorChan not closed 5 s after the connection ended", t)
+			}
+			if len(r.Leaked) > 0 {
+				c.Res.Violate("monitor", "c15:leak:"+fn+":"+t.Call+":"+t.Script,
+					fmt.Sprintf("%d goroutines survive the end of the connection (no client was stopped): %s", len(r.Leaked), strings.Join(r.Leaked, " || ")), t)
 			}
 			continue
 		case strings.HasPrefix(t.Call, "localmessagenotification-server"):
